@@ -25,6 +25,7 @@ fn main() {
         "format" => h::eng_format::main(rest),
         "fault" => h::eng_fault::main(rest),
         "conf" => h::eng_conf::main(rest),
+        "cli" => h::eng_cli::main(rest),
         e => {
             eprintln!("unknown engine {e}");
             std::process::exit(2);
